@@ -59,6 +59,15 @@ def scan_table(menu: str, n: int):
     return pd.DataFrame({"k": SCAN_ROWS[:n]})
 
 
+# every public entry point that takes cache= (besides parallelise itself); True: it also takes worker=
+ENTRY_POINTS = {
+    "scan.steady_state": True, "scan.time_course": True, "scan.protocol": True, "scan.protocol_time_course": True,
+    "mc.steady_state": True, "mc.time_course": True, "mc.protocol": True, "mc.protocol_time_course": True,
+    "mc.scan_steady_state": True,
+    "mc.variable_elasticities": False, "mc.parameter_elasticities": False, "mc.response_coefficients": False,
+}
+
+
 def keys_of(flavour: str, menu: str | None, n: int) -> list:
     if flavour == "pmap":
         return list(PMAP_KEYS[menu or "plain"][:n])
@@ -204,6 +213,18 @@ def k_ss_worker(model, *, rel_norm, integrator, y0):
         _before_compute(_G.key)
     default = inspect.signature(steady_state).parameters["worker"].default
     return default(model, rel_norm=rel_norm, integrator=integrator, y0=y0)
+
+
+def ep_worker(model, *args, _ep: str, **kw):
+    """worker= of any entry point that has one: log the computation, then the library's own default worker."""
+    import importlib
+    import inspect
+
+    if _G.active:
+        _before_compute(_G.key)
+    mod, fn = _ep.rsplit(".", 1)
+    default = inspect.signature(getattr(importlib.import_module("mxlpy." + mod), fn)).parameters["worker"].default
+    return default(model, *args, **kw)
 
 
 # --------------------------------------------------------------------------------------------
@@ -371,9 +392,63 @@ def run_once(job: dict):
 
     if par:
         multiprocessing.cpu_count = lambda: job["w"]  # the pool size scan.* reads (no public worker-count argument)
-    res = scan.steady_state(scan_model(job.get("ver", 1)), to_scan=scan_table(job.get("keys") or "range", n), parallel=par,
-                            cache=cache, worker=k_ss_worker)
-    return res, _frames(res)
+    if job["flavour"] == "scan":
+        res = scan.steady_state(scan_model(job.get("ver", 1)), to_scan=scan_table(job.get("keys") or "range", n), parallel=par,
+                                cache=cache, worker=k_ss_worker)
+        return res, _frames(res)
+    res = run_entry(job["flavour"], job, cache, par)
+    return res, _project(res)
+
+
+def _project(res) -> dict:
+    import pandas as pd
+
+    def fr(df):
+        return {"index": [str(i) for i in df.index], "cols": [str(c) for c in df.columns],
+                "data": [[float(x) for x in row] for row in df.to_numpy()]}
+
+    if isinstance(res, pd.DataFrame):
+        return {"frame": fr(res)}
+    return {"v": fr(res.variables), "f": fr(res.fluxes)}
+
+
+def run_entry(ep: str, job: dict, cache, par: bool):
+    """One call of a public entry point that takes cache= (ENTRY_POINTS), over the key menu's table."""
+    import importlib
+    from functools import partial
+
+    import numpy as np
+    import pandas as pd
+
+    from mxlpy import make_protocol
+
+    ver, n, w = job.get("ver", 1), job["nk"], job["w"]
+    mod, fn = ep.rsplit(".", 1)
+    f = getattr(importlib.import_module("mxlpy." + mod), fn)
+    tab = scan_table(job.get("keys") or "range", n)
+    kw: dict = {"cache": cache}
+    if ENTRY_POINTS[ep]:
+        kw["worker"] = partial(ep_worker, _ep=ep)
+    if mod == "scan":
+        kw.update(to_scan=tab, parallel=par)
+    else:
+        kw.update(mc_to_scan=tab, max_workers=max(1, w))
+    prot = make_protocol([(1.0, {"s": float(ver)}), (1.0, {"s": 2.0 * ver})])
+    if fn == "time_course":
+        kw["time_points"] = np.array([0.0, 0.5, 1.0])
+    elif fn == "protocol":
+        kw.update(protocol=prot, time_points_per_step=3)
+    elif fn == "protocol_time_course":
+        kw.update(protocol=prot, time_points=np.array([0.5, 1.5]))
+    elif fn == "scan_steady_state":
+        kw["to_scan"] = pd.DataFrame({"s": [float(ver), 2.0 * ver]})
+    elif fn == "variable_elasticities":
+        kw.update(to_scan=["x"], variables={"x": 1.0})
+    elif fn == "parameter_elasticities":
+        kw.update(to_scan=["k", "s"], variables={"x": 1.0})
+    elif fn == "response_coefficients":
+        kw.update(to_scan=["k", "s"], disable_tqdm=True)
+    return f(scan_model(ver), **kw)
 
 
 def mutate_result(flavour: str, raw) -> None:
@@ -382,6 +457,8 @@ def mutate_result(flavour: str, raw) -> None:
         for _k, v in raw:
             v["lst"].append(-1)
             v["sq"] = -1.0
+    elif flavour != "scan":
+        return                      # the aliasing probe is defined for the two base flavours only
     else:
         for sim in raw.raw_results:
             for df in sim.raw_variables:
@@ -397,13 +474,26 @@ def inproc_main(job: dict) -> dict:
     ver, last, runs = 1, None, []
     for step in job["steps"]:
         op = step["op"]
-        if op in ("run", "rerun"):
+        if op.startswith("drop"):
+            # the caller deletes some entries: a half-filled cache
+            import re as _re
+
+            ks = [int(x) for x in _re.findall(r"\d+", op)]
+            _log("op", sum(1 << (k - 1) for k in ks), op="drop")
+            names = [_default_cache().name_fn(_G.keys[k - 1]) for k in ks]
+            for nm in names:
+                fp = os.path.join(job["cache_dir"], nm)
+                if os.path.exists(fp):
+                    os.remove(fp)
+            continue
+        if op in ("run", "rerun", "rerun*"):
             _log("op", 0, op=op)
             _G.active = True
             last, js = run_once({**job, "cache": True, "w": step["w"], "ver": ver})
             _G.active = False
             _, ref = run_once({**job, "cache": False, "w": 0, "ver": ver})
-            runs.append({"op": op, "ver": ver, "w": step["w"], "out": js, "ref": ref})
+            stored = sum(os.path.exists(os.path.join(job["cache_dir"], _default_cache().name_fn(k))) for k in _G.keys)
+            runs.append({"op": op, "ver": ver, "w": step["w"], "out": js, "ref": ref, "stored": stored})
         elif op == "clear":
             _log("op", 0, op=op)
             shutil.rmtree(job["cache_dir"], ignore_errors=True)
